@@ -59,6 +59,10 @@ type opT struct {
 	Addr    int     `json:"addr,omitempty"`
 	Err     bool    `json:"err,omitempty"`
 	Rt      uint64  `json:"rt,omitempty"`
+	// reload with Var 6 (LoadRuleOfResource) / 7 (LoadRules): the embedded circuit breaker rule changes to
+	// this threshold / minimum request amount (the node breakers are rebuilt), nothing else changes
+	Thr    float64 `json:"thr,omitempty"`
+	MinReq uint64  `json:"min_req,omitempty"`
 }
 
 type caseT struct {
@@ -75,6 +79,8 @@ const (
 	limBase    = 300000
 	reloadBase = 400000
 	pctBase    = 500000 // reloads that change MaxEjectionPercent only (monitor only: the model's rule is a fixed parameter)
+	brkBase    = 600000 // reloads that relax the embedded circuit breaker rule (monitor only)
+	raceBase   = 700000 // real-thread search leg: first ejection || first successful completion of fresh resources
 )
 
 func third() float64 { return 1.0 / 3 }
@@ -320,6 +326,43 @@ func genPct(r *rng.R, id int) caseT {
 	return c
 }
 
+// genBrk: a reload that changes the EMBEDDED CIRCUIT BREAKER RULE, through LoadRuleOfResource or through
+// the global LoadRules, followed by traffic.  k of n nodes fail and are ejected, a request is measured;
+// then the rule is reloaded with a threshold / minimum amount no node can reach any more: every node gets
+// a breaker of the new rule, so from then on no node rejects - the filter and the half-open list of every
+// later request are empty whatever the later completions are (the filter holds only nodes whose CURRENT
+// breaker rejects).
+func genBrk(r *rng.R, id int) caseT {
+	c := caseT{ID: id, Class: "breaker-reload"}
+	n := 2 + r.Intn(7)
+	c.Nodes = n
+	p0 := r.PickF(1, 1, 0.5, 0.75)
+	c.Rule = ruleT{Strategy: 2, RetryMs: uint32(r.PickI(100, 100000)), MinReq: 1, StatMs: 60000, Thr: 1, ProbeNum: uint64(r.PickI(0, 1)),
+		Active: r.Chance(1, 4), Pct: p0, PctBits: fmt.Sprintf("%016x", math.Float64bits(p0))}
+	k := 1 + r.Intn(n)
+	for i := 1; i <= n; i++ {
+		c.Ops = append(c.Ops, opT{Kind: "enter", Dt: 1}, opT{Kind: "exit", Addr: i, Err: i <= k})
+	}
+	c.Ops = append(c.Ops, opT{Kind: "enter", Dt: 1}, opT{Kind: "exit"})
+	if r.Chance(1, 3) {
+		c.Ops = append(c.Ops, opT{Kind: "reload", Var: r.Intn(2)}) // an identical reload first
+	}
+	o := opT{Kind: "reload", Dt: uint64(r.Intn(3)), Var: 6 + r.Intn(2), Thr: 1, MinReq: 1}
+	switch r.Intn(3) {
+	case 0:
+		o.Thr = 1000
+	case 1:
+		o.MinReq = 1000
+	default:
+		o.Thr, o.MinReq = 500, 500
+	}
+	c.Ops = append(c.Ops, o)
+	for j := 2 + r.Intn(4); j > 0; j-- {
+		c.Ops = append(c.Ops, opT{Kind: "enter", Dt: uint64(r.PickI(0, 1, int64(c.Rule.RetryMs)))}, opT{Kind: "exit", Addr: 1 + r.Intn(n), Err: r.Chance(2, 3)})
+	}
+	return c
+}
+
 type pairT struct {
 	n   int
 	pct float64
@@ -400,10 +443,11 @@ func runCase(c caseT, clk *vclock.Clock) []obsT {
 	// a fresh rule object (and a fresh circuit-breaker part) per load; gen > 0 changes only fields that
 	// neither the node breakers nor the slot's decisions depend on
 	curPct := c.Rule.Pct
+	curThr, curMin := c.Rule.Thr, c.Rule.MinReq
 	mkRule := func(gen int) *outlier.Rule {
 		ru := &outlier.Rule{
 			Rule: &circuitbreaker.Rule{Resource: res, Strategy: circuitbreaker.Strategy(c.Rule.Strategy), RetryTimeoutMs: c.Rule.RetryMs,
-				MinRequestAmount: c.Rule.MinReq, StatIntervalMs: c.Rule.StatMs, MaxAllowedRtMs: c.Rule.MaxRt, Threshold: c.Rule.Thr, ProbeNum: c.Rule.ProbeNum},
+				MinRequestAmount: curMin, StatIntervalMs: c.Rule.StatMs, MaxAllowedRtMs: c.Rule.MaxRt, Threshold: curThr, ProbeNum: c.Rule.ProbeNum},
 			EnableActiveRecovery: c.Rule.Active,
 			MaxEjectionPercent:   curPct,
 			MaxRecoveryAttempts:  3,
@@ -507,7 +551,10 @@ func runCase(c caseT, clk *vclock.Clock) []obsT {
 			retryerFor(o.Addr).VerifDisconnected(addrName(o.Addr))
 		case "reload":
 			g := 0
-			if o.Var >= 4 {
+			if o.Var >= 6 {
+				curThr, curMin = o.Thr, o.MinReq // only the embedded circuit breaker rule changes
+				g = gen
+			} else if o.Var >= 4 {
 				curPct = o.Pct // only the percentage changes
 				g = gen
 			} else if o.Var >= 2 {
@@ -595,6 +642,7 @@ func monitor(c caseT, obs []obsT, rep *emit.Report) (st monStats) {
 	sched := map[int]bool{}    // scheduled for recycling -> completed successfully since
 	kinds := [2]string{"", ""}
 	curPct, curBits := c.Rule.Pct, c.Rule.PctBits // the percentage of the rule loaded last
+	relaxed := false                              // the breaker rule loaded last cannot be reached by any node
 	fail := func(clause, sig, detail string) { rep.Fail(c.ID, clause, sig, detail, c) }
 	for i, o := range c.Ops {
 		ob := obs[i]
@@ -606,6 +654,11 @@ func monitor(c caseT, obs []obsT, rep *emit.Report) (st monStats) {
 		switch o.Kind {
 		case "enter":
 			kinds[o.Slot] = "enter"
+			if relaxed && (len(ob.Filter) > 0 || len(ob.Half) > 0) {
+				fail("C20_filter_subset_rejecting", "node-filtered-by-breaker-of-replaced-rule",
+					fmt.Sprintf("op %d: the embedded circuit breaker rule was replaced by one no node can trip (every node has a breaker of the rule in force, none rejects), yet the request reported filter=%v half-open=%v", i, ob.Filter, ob.Half))
+				return
+			}
 			rejecting := map[int]bool{}
 			probing := map[int]bool{}
 			for a, s := range ob.Before {
@@ -709,7 +762,9 @@ func monitor(c caseT, obs []obsT, rep *emit.Report) (st monStats) {
 			}
 			kinds[o.Slot] = ""
 		case "reload":
-			if o.Var >= 4 {
+			if o.Var >= 6 {
+				relaxed = o.Thr >= 500 || o.MinReq >= 500
+			} else if o.Var >= 4 {
 				curPct, curBits = o.Pct, o.PctBits
 			}
 		case "conn":
@@ -858,6 +913,9 @@ func main() {
 	pairs := pairList(a.Tier)
 
 	getCase := func(id int) caseT {
+		if id >= brkBase {
+			return genBrk(root.Fork(uint64(id)), id)
+		}
 		if id >= pctBase {
 			return genPct(root.Fork(uint64(id)), id)
 		}
@@ -935,6 +993,10 @@ func main() {
 	// reloads that change only MaxEjectionPercent (monitor only)
 	for j := 0; j < a.Pick(0, 60, 1500); j++ {
 		runOne(pctBase+j, false)
+	}
+	// reloads that relax the embedded circuit breaker rule, through either load path (monitor only)
+	for j := 0; j < a.Pick(0, 60, 1500); j++ {
+		runOne(brkBase+j, false)
 	}
 	// (n, pct) pairs on the implementation, passive and active
 	for j := 0; j < 2*len(pairs); j++ {
